@@ -685,6 +685,23 @@ func runC03(r *R) {
 		ops = append(ops, o)
 	}
 	cfg := r.SchedConfig()
+	// byte-at-a-time delivery of tens of kilobytes of literals only burns the step budget: the fragmentation
+	// of large volumes is left to the seeded segmentation
+	volume := 0
+	for _, o := range ops {
+		for _, m := range o.Msgs {
+			for _, sec := range m.Sections {
+				volume += len(sec)
+			}
+			for _, sec := range m.Binary {
+				volume += len(sec)
+			}
+		}
+	}
+	if volume > 24000 && (netMode == 1 || netMode == 3) {
+		netMode = 2
+	}
+	cfg.MaxSteps = 400000
 	sess := &emitSession{r: r}
 	var srvLog *logBuf
 	var cliConn *simnet.Conn
